@@ -41,7 +41,8 @@ RULE = ("templates drawn from one PRNG (VERIF_SEED) over the grammar: elements (
         "raw-text script/style/noscript, escapable raw text textarea/title) nested to depth 4, static attributes (string literal, no "
         "value), dynamic attributes ({String}, {bool}, {Option<String>}), class:name / class:name={bool}, "
         "class=(\"n\", bool) / class=([..], bool), style:prop=\"v\" / style:prop={..} / style=(\"p\", \"v\"), text "
-        "literals (also empty), {String} blocks, fragments, two fixed components, the scope-class form, ordinary "
+        "literals (also empty), {String} blocks, fragments, four fixed components (one returning its children, one wrapping "
+        "them, one with a slot, one with a prop) with attr:/class: spread onto them, the scope-class form, ordinary "
         "elements with markup-significant text below <noscript> (static and dynamic, depth 2-3); strings from a pool with "
         "markup-significant content (<, >, &, \", ', </p>, <!-- -->, entities, unicode, newlines, surrounding "
         "blanks). Every template is compiled three times (as written, forced-dynamic twin, template!). A case is "
@@ -58,7 +59,7 @@ TRUSTED = [
     "RenderHtml, InertElement, the SELF_CLOSING/ESCAPE_CHILDREN tables), html_escape::{encode_text, "
     "encode_double_quoted_attribute}, slice::sort_by on < 21 elements (insertion sort), str::trim on ASCII blanks",
     "compared only, NOT modelled (PARTIAL): rstml parsing of the macro input, token plumbing / quote!, component and "
-    "slot expansion (two fixed components are rendered and checked by the oracle only), spreads, events, "
+    "slot expansion (four fixed components incl. a slot and attr:/class: spreading are rendered and checked by the oracle only), spreads, events, "
     "directives, properties, inner_html, the global class form (both rendered from generated templates and checked by the "
     "oracle), nightly Static<..> strings",
     "Html/MacroParse.v is a parser for the EMITTED subset (double-quoted attributes, <!..> comments, four raw-text "
@@ -359,7 +360,51 @@ def gen_noscript_template(rng):
     return [["e", "div", [], [["e", "p", [["p", "id", ["lit", "w"]]], [ns]]]]]   # depth 3
 
 
+def gen_spreads(rng):
+    out = []
+    for _ in range(pick(rng, [0, 1, 1, 2])):
+        r = rng.random()
+        if r < 0.4:
+            out.append(["sa", pick(rng, ["data-sp", "data-k2"]), pick(rng, VALUES)])
+        elif r < 0.6:
+            out.append(["sd", pick(rng, ["data-sp", "data-k2"]), pick(rng, VALUES)])
+        else:
+            out.append(["sc", pick(rng, ["sp-on", "x1"]), rng.random() < 0.7])
+    seen, uniq = set(), []
+    for x in out:
+        if x[1] not in seen:
+            seen.add(x[1])
+            uniq.append(x)
+    return uniq
+
+
+def gen_spread_template(rng):
+    """a component with attributes spread onto its view; children static (candidates for the inert path) or dynamic"""
+    dyn_p = pick(rng, [0.0, 0.0, 0.0, 0.3])
+    kids = []
+    for _ in range(pick(rng, [1, 1, 2, 3])):
+        r = rng.random()
+        if r < 0.2:
+            kids.append(gen_text(rng, dyn_p))
+        else:
+            e = gen_elem(rng, pick(rng, [0, 1, 2]), dyn_p)
+            if e[1] in RAW or e[1] == "title":
+                e = ["e", "p", [], [["t", "x"]]]
+            kids.append(e)
+    if not any(k[0] == "e" for k in kids):
+        kids.append(["e", "p", [["p", "class", ["lit", "s"]]], [["t", "a < b"]]])
+    comp = ["c", pick(rng, ["Pass", "Pass", "Pass", "Wrap", "Cond"]), kids, gen_spreads(rng)]
+    r = rng.random()
+    if r < 0.4:
+        return [comp]
+    if r < 0.8:
+        return [["e", pick(rng, ["main", "div"]), [], [comp] + ([gen_text(rng, 0.0)] if rng.random() < 0.5 else [])]]
+    return [["c", "Pass", [["e", "div", [], [comp]]], gen_spreads(rng)]]
+
+
 def gen_component_template(rng):
+    if rng.random() < 0.6:
+        return gen_spread_template(rng)
     inner = gen_children(rng, 2, pick(rng, [0.0, 0.2])) + [["e", "b", [], [["t", "w"]]]]
     if rng.random() < 0.6:
         return [["e", "div", [], [["c", "Wrap", inner], ["t", pick(rng, TEXTS)]]]]
@@ -415,10 +460,29 @@ FIXED_NOSCRIPT = [
     [["e", "div", [], [["e", "noscript", [], [["e", "div", [], [["e", "span", [["ct", "on", True]], [["b", "<script>"]]]]], ["t", "x"]]]]]],
     [["e", "div", [], [["e", "noscript", [], [["e", "p", [["p", "id", ["lit", "s"]]], [["t", "1 << 2 && 3"]]]]]]]],
 ]
+FIXED_COMPONENT = [
+    [["c", "Pass", [["e", "p", [["p", "class", ["lit", "s"]]], [["t", "a < b"]]]], []]],
+    [["c", "Pass", [["e", "p", [["p", "class", ["lit", "s"]]], [["t", "t"]]]], [["sa", "id", "x"]]]],
+    [["c", "Pass", [["e", "p", [["p", "class", ["lit", "s"]]], [["t", "a"]]], ["e", "span", [], [["t", "plain"]]]],
+      [["sa", "data-k", "v"]]]],
+    [["e", "main", [], [["c", "Pass", [["e", "b", [["p", "id", ["lit", "i"]]], [["t", "t"]]]], [["sc", "on", True]]]]]],
+    [["c", "Wrap", [["e", "p", [["p", "class", ["lit", "s"]]], [["t", "t"]]]], [["sa", "id", "x"]]]],
+    [["c", "Cond", [["e", "p", [["p", "class", ["lit", "s"]]], [["t", "a&b"]]], ["t", "x"]], []]],
+    [["e", "div", [], [["c", "Cond", [["e", "i", [], [["t", "<"]]]], [["sd", "data-k", "a\"b"]]]]]],
+]
 FIXED_GLOBAL_CLASS = [
     ("global-class", [["e", "div", [], [["e", "p", [["p", "id", ["lit", "a"]]], [["t", "x"]]],
                                         ["e", "span", [["p", "class", ["lit", "k"]]], [["t", "y"]]], ["e", "br", [], []]]]]),
 ]
+
+
+def comp_children(n):
+    """children list of a component node (Label has a text prop instead)"""
+    return [] if n[1] == "Label" else n[2]
+
+
+def comp_spreads(n):
+    return n[3] if len(n) > 3 else []
 
 
 def has_component(t):
@@ -440,10 +504,12 @@ def generate(rng, tier):
         yield dict(tpl=t, kind=kind, compare=False, variants=[0, 1])
     for kind, t in FIXED_GLOBAL_CLASS:
         yield dict(tpl=t, kind=kind, compare=False, gclass="sc")
+    for t in FIXED_COMPONENT:
+        yield dict(tpl=t, kind="component", compare=False, variants=[0, 1])
     for t in FIXED_NOSCRIPT:
         yield dict(tpl=t, kind="below-noscript", compare=True, noscript_html=True)
     for i in range(n):
-        if i % 25 == 24:
+        if i % 25 in (24, 3):
             yield dict(tpl=gen_component_template(rng), kind="component", compare=False, variants=[0, 1])
         elif i % 25 in (6, 18):
             yield dict(tpl=gen_noscript_template(rng), kind="below-noscript", compare=True, noscript_html=True)
@@ -502,8 +568,8 @@ def twin(tpl):
             out.append(["e", n[1], list(n[2]) + [TWIN], twin(n[3])])
         elif n[0] == "f":
             out.append(["f", twin(n[1])])
-        elif n[0] == "c" and n[1] == "Wrap":
-            out.append(["c", "Wrap", twin(n[2])])
+        elif n[0] == "c" and n[1] != "Label":
+            out.append(["c", n[1], twin(n[2])] + ([n[3]] if len(n) > 3 else []))
         else:
             out.append(n)
     return out
@@ -569,6 +635,15 @@ def rust_attr(a):
     return "style=(%s, %s)" % (rust_str(a[1]), rust_str(a[2]))
 
 
+def rust_spread(x):
+    """attributes written on a component: attr:name="v" | attr:name={s("v")} | class:name={bool}"""
+    if x[0] == "sa":
+        return "attr:%s=%s" % (x[1], rust_str(x[2]))
+    if x[0] == "sd":
+        return "attr:%s={s(%s)}" % (x[1], rust_str(x[2]))
+    return "class:%s={%s()}" % (x[1], "tb" if x[2] else "fb")
+
+
 def rust_node(n):
     if n[0] == "t":
         return rust_str(n[1])
@@ -577,9 +652,13 @@ def rust_node(n):
     if n[0] == "f":
         return "<>" + " ".join(rust_node(c) for c in n[1]) + "</>"
     if n[0] == "c":
-        if n[1] == "Wrap":
-            return "<Wrap>" + " ".join(rust_node(c) for c in n[2]) + "</Wrap>"
-        return "<Label text=%s/>" % rust_str(n[2])
+        if n[1] == "Label":
+            return "<Label text=%s/>" % rust_str(n[2])
+        sp = "".join(" " + rust_spread(x) for x in comp_spreads(n))
+        kids = " ".join(rust_node(c) for c in n[2])
+        if n[1] == "Cond":
+            return "<Cond%s><Then slot>%s</Then></Cond>" % (sp, kids)
+        return "<%s%s>%s</%s>" % (n[1], sp, kids, n[1])
     tag, attrs, ch = n[1], n[2], n[3]
     a = "".join(" " + rust_attr(x) for x in attrs)
     if tag in VOID:
@@ -773,6 +852,25 @@ def expect_attrs(attrs):
     return norm_attrs(pairs)
 
 
+def spread_onto(roots, spreads):
+    """attributes written on a component land on every root element of the view it returns"""
+    if not spreads:
+        return roots
+    out = []
+    for r in roots:
+        if r[0] == "text":
+            out.append(r)
+            continue
+        a = dict(r[2])
+        for x in spreads:
+            if x[0] in ("sa", "sd"):
+                a[x[1]] = x[2]
+            elif x[2]:
+                a["class"] = frozenset(a.get("class", frozenset()) | {x[1]})
+        out.append(("elem", r[1], a, r[3]))
+    return out
+
+
 def expect(tpl, out=None):
     """the tree the template denotes (written independently of Html/Macro.v's [denote])"""
     out = [] if out is None else out
@@ -782,12 +880,21 @@ def expect(tpl, out=None):
         elif n[0] == "f":
             expect(n[1], out)
         elif n[0] == "c":
-            if n[1] == "Wrap":
-                out.append(("elem", "section", {"class": frozenset(["w"])}, expect(n[2])))
-            else:
+            if n[1] == "Label":
                 ch = []
                 add_text(ch, n[2])
-                out.append(("elem", "label", {}, ch))
+                roots = [("elem", "label", {}, ch)]
+            elif n[1] == "Wrap":
+                roots = [("elem", "section", {"class": frozenset(["w"])}, expect(n[2]))]
+            elif n[1] == "Cond":
+                roots = [("elem", "div", {"class": frozenset(["cond"])}, expect(n[2]))]
+            else:                                   # Pass: the children themselves are the roots
+                roots = expect(n[2])
+            for r in spread_onto(roots, comp_spreads(n)):
+                if r[0] == "text":
+                    add_text(out, r[1])
+                else:
+                    out.append(r)
         else:
             tag, attrs, ch = n[1], n[2], n[3]
             inner = [a for a in attrs if a[0] == "p" and a[1] == "inner_html"]
@@ -903,7 +1010,7 @@ def title_adjacent(tpl):
                 return True
         elif n[0] == "f" and title_adjacent(n[1]):
             return True
-        elif n[0] == "c" and n[1] == "Wrap" and title_adjacent(n[2]):
+        elif n[0] == "c" and n[1] != "Label" and title_adjacent(n[2]):
             return True
     return False
 
@@ -1076,7 +1183,7 @@ def template_valid(tpl, noscript_html=False):
                 return False
         elif n[0] == "f" and not template_valid(n[1], noscript_html):
             return False
-        elif n[0] == "c" and n[1] == "Wrap" and not template_valid(n[2], noscript_html):
+        elif n[0] == "c" and n[1] != "Label" and not template_valid(n[2], noscript_html):
             return False
     return True
 
